@@ -1230,7 +1230,7 @@ func TestVerif_C17(t *testing.T) {
 		t.Skip("not started by the /verif driver")
 	}
 	defer r.Finish()
-	r.SetRule("Each case runs a real tmgossip.ChattyStrategy against a recording broadcaster (unbuffered Outgoing* channels) and feeds it 2-25 NetworkViewUpdates produced by a simulator of the mirror kernel's gossip output: 4-7 ed25519 validators from tmconsensustest.NewEd25519Fixture, really signed proposed headers and votes, views growing per (height, round) with increasing versions, commits (Voting->Committing, new height), nil-committed rounds queued as NilVotedRound (one per update, oldest first: together with views, alone, alone with RoundSessionChanges), jumps to the next round, votes for unknown hashes, precommit messages that nil-commit a round at once (so rounds die back to back), equivocation with probability 0/0.15/0.4 (equal signer count, different signatures), and delivery after each kernel step with probability 1/0.75/0.5 (the kernel only ever hands over its latest state). 9 directed minimal histories run first. Barrier: acceptance of the next update on the unbuffered input channel; a sentinel view plus a final barrier update end each case. Oracle: set equality between everything in delivered views (headers; kind,height,round,target,key id,signature bytes - from the simulator's own bookkeeping) and everything offered; prevotes/headers that occur only in a NilVotedRound view are not judged (counted as nvr_only_items_not_offered_unjudged). Non-trivial = a case with >= 2 delivered updates whose IN and OUT are both non-empty, digest = SHA-256 of the delivered update history.")
+	r.SetRule("Each case runs a real tmgossip.ChattyStrategy against a recording broadcaster (unbuffered Outgoing* channels) and feeds it 2-25 NetworkViewUpdates produced by a simulator of the mirror kernel's gossip output: 4-7 ed25519 validators from tmconsensustest.NewEd25519Fixture, really signed proposed headers and votes, views growing per (height, round) with increasing versions, commits (Voting->Committing, new height), nil-committed rounds queued as NilVotedRound (one per update, oldest first: together with views, alone, alone with RoundSessionChanges), jumps to the next round, votes for unknown hashes, precommit messages that nil-commit a round at once (so rounds die back to back), equivocation with probability 0/0.15/0.4 (equal signer count, different signatures), and delivery after each kernel step with probability 1/0.75/0.5 (the kernel only ever hands over its latest state). 10 directed minimal histories run first. Barrier: acceptance of the next update on the unbuffered input channel; a sentinel view plus a final barrier update end each case. Oracle: set equality between everything in delivered views (headers; kind,height,round,target,key id,signature bytes - from the simulator's own bookkeeping) and everything offered; prevotes/headers that occur only in a NilVotedRound view are not judged (counted as nvr_only_items_not_offered_unjudged). Non-trivial = a case with >= 2 delivered updates whose IN and OUT are both non-empty, digest = SHA-256 of the delivered update history.")
 
 	if err := selfCheck(); err != nil {
 		r.Inconclusive("self check failed: %v", err)
